@@ -58,13 +58,16 @@ var memoPrelude = []string{
 	"hset2 = func(k) {old = h; h = func(x) {x + k}; old(0)}", "hset3 = func(k) {h(0); t = func() {h = func(x) {x + k}}; t()}",
 	"gflip = func() {g = 1 - g}", "gflip2 = func() {t = g; g = 1 - t; t}", "cset = func(v) {del(G); G = v}",
 	"fcatchgate = func(x) {r = catch(vgate()); if r.err {-1} else {r.value}}", "box = func(q) {[q]}",
+	// (Memo.tla: absentread / absentwrite / groupl / groupr / mk)
+	"fabsentread = func(x) {[x, catch(y).err]}", "fabsentwrite = func(x) {y = 5; y + x}", "fgroupl = func(a) {[a] + (1 + 2)}", "fgroupr = func(a) {[a] + 1 + 2}",
+	"mkc = func(n) {c = n; func() {c = c + 1; c}}",
 }
 
 // instantiateMemo turns a model history into REPL inputs. variant selects, per operation, one of the equivalent
 // source forms of a redefinition or mutation (variant 0 = the plain forms).
 func instantiateMemo(ops []memoOp, variant int) []string {
 	in := append([]string{}, memoPrelude...)
-	hver, cst := 1, 10
+	hver, cst, mks := 1, 10, 0
 	for oi, op := range ops {
 		pickv := func(forms ...string) string {
 			if variant <= 2 && len(forms) >= 3 {
@@ -88,6 +91,16 @@ func instantiateMemo(ops []memoOp, variant int) []string {
 			}
 		case "box":
 			in = append(in, fmt.Sprintf("println(box(mklower(%d))[0](0))", op.V))
+		case "mk": // every closure made so far is advanced once more after the new one: two that are one closure show it
+			mks++
+			in = append(in, fmt.Sprintf("k%d = mkc(0); println(k%d())", mks, mks))
+			for k := 1; k < mks; k++ {
+				in = append(in, fmt.Sprintf("println(k%d())", k))
+			}
+		case "definey":
+			in = append(in, pickv("y = 1", "y := 1", "func() {y = 1}()"))
+		case "ready":
+			in = append(in, "println(y)")
 		case "mutate":
 			in = append(in, pickv("g = 1 - g", "gflip()", "g := 1 - g", "gflip2()", "g++; g = g % 2"))
 		case "redefh":
@@ -136,30 +149,43 @@ func memoSignature(inputs []string) string {
 
 func checkC04(c *Ctx) {
 	// 1. design level: each exemption of the pinned tree, without its guard, serves a stale hit
-	for _, dev := range [][6]bool{{false, true, true, true, true, true}, {true, false, true, true, true, true}, {true, true, false, true, true, true}, {true, true, true, false, true, true},
-		{true, true, true, true, false, true}, {true, true, true, true, true, false}} {
-		b := func(x bool) string {
-			if x {
-				return "TRUE"
+	devNames := []string{"ExemptOnlyTopLevel", "ResetOnRedefinition", "MissPropagates", "ZeroSignDistinct", "ImpureErrorIsMiss", "FuncArgsUnhashable",
+		"AbsentNameIsMiss", "NewNameDropsCache", "FunctionResultsNotStored", "KeyKeepsGrouping", "WorldExtensionsMarked"}
+	memoCfg := func(maxOps int, off int, emit bool) string {
+		var sb strings.Builder
+		fmt.Fprintf(&sb, "CONSTANTS\n MaxOps = %d\n", maxOps)
+		for i, n := range devNames {
+			v := "TRUE"
+			if i == off {
+				v = "FALSE"
 			}
-			return "FALSE"
+			fmt.Fprintf(&sb, " %s = %s\n", n, v)
 		}
-		cfg := fmt.Sprintf("CONSTANTS\n MaxOps = 3\n ExemptOnlyTopLevel = %s\n ResetOnRedefinition = %s\n MissPropagates = %s\n ZeroSignDistinct = %s\n ImpureErrorIsMiss = %s\n FuncArgsUnhashable = %s\n EmitOn = FALSE\nINIT Init\nNEXT Next\nVIEW view\nINVARIANTS ObsCorrect HitSound\n", b(dev[0]), b(dev[1]), b(dev[2]), b(dev[3]), b(dev[4]), b(dev[5]))
-		r, err := c.TLC(TLCOpt{Spec: "Memo", Cfg: cfg, Workers: 4, AllowError: true})
+		e := "FALSE"
+		if emit {
+			e = "TRUE"
+		}
+		// (the world-dependent extensions are replayed by the world sessions of section 6, in child processes)
+		fmt.Fprintf(&sb, " GenKinds = {\"pure\", \"lower\", \"upper\", \"callee\", \"print\", \"error\", \"impure\", \"wraplower\", \"inv\", \"catchlower\", \"catchgate\", \"absentread\", \"absentwrite\", \"groupl\", \"groupr\"}\n")
+		fmt.Fprintf(&sb, " EmitOn = %s\nINIT Init\nNEXT Next\nVIEW view\nINVARIANTS ObsCorrect HitSound\n", e)
+		return sb.String()
+	}
+	for d := range devNames {
+		r, err := c.TLC(TLCOpt{Spec: "Memo", Cfg: memoCfg(4, d, false), Workers: 4, AllowError: true})
 		if err != nil {
 			c.Infra(err)
 			return
 		}
 		if r.InvViolated == "" {
-			c.Infra(fmt.Errorf("Memo.tla with deviation %v satisfied its invariants (vacuous model)", dev))
+			c.Infra(fmt.Errorf("Memo.tla with %s = FALSE satisfied its invariants (vacuous model)", devNames[d]))
 			return
 		}
 	}
-	c.Cov("design_counterexamples", "ExemptOnlyTopLevel, ResetOnRedefinition, MissPropagates, ZeroSignDistinct, ImpureErrorIsMiss, FuncArgsUnhashable = FALSE each violate ObsCorrect (stale hit)")
+	c.Cov("design_counterexamples", strings.Join(devNames, ", ")+" = FALSE each violate ObsCorrect / HitSound (stale hit)")
 
 	// 2. MC + GEN
 	maxOps := c.Pick(4, 5)
-	cfg := fmt.Sprintf("CONSTANTS\n MaxOps = %d\n ExemptOnlyTopLevel = TRUE\n ResetOnRedefinition = TRUE\n MissPropagates = TRUE\n ZeroSignDistinct = TRUE\n ImpureErrorIsMiss = TRUE\n FuncArgsUnhashable = TRUE\n EmitOn = TRUE\nINIT Init\nNEXT Next\nVIEW view\nINVARIANTS ObsCorrect HitSound\n", maxOps)
+	cfg := memoCfg(maxOps, -1, true)
 	r, err := c.TLC(TLCOpt{Spec: "Memo", Cfg: cfg, Workers: 8})
 	if err != nil {
 		c.Infra(err)
@@ -169,7 +195,7 @@ func checkC04(c *Ctx) {
 	var ecs []equivCase
 	seen := map[string]bool{}
 	n := 0
-	stride := c.Pick(3, 4)
+	stride := c.Pick(16, 9)
 	err = ReadLines(r.Emitted, func(line []byte) error {
 		var g struct {
 			H []memoOp `json:"h"`
